@@ -372,6 +372,30 @@ pub fn run_c20(tier: Tier) -> i32 {
         e.traders = T2.to_vec();
         exps.push(e);
     }
+    // two markets on one engine: the engine's open interest is the sum over both, each vAMM's cap is held against it
+    {
+        let mut alpha2 = vec![];
+        for t in ["alice", "bob"] {
+            for v in 0..2usize {
+                for buy in [true, false] {
+                    for (mg, l) in [SIZE_S, (2 * D, 1 * D)] {
+                        alpha2.push(Act::Open { t: t.into(), v, buy, margin: mg, lev: l, limit: 0 });
+                    }
+                }
+                alpha2.push(Act::Close { t: t.into(), v, limit: 0 });
+            }
+        }
+        for oc in [0u128, 150 * D] {
+            alpha2.push(Act::VammCaps { by: "owner".into(), v: 0, oi_cap: Some(oc), holding_cap: None });
+            alpha2.push(Act::VammCaps { by: "owner".into(), v: 1, oi_cap: Some(oc), holding_cap: None });
+        }
+        alpha2.push(Act::blk(15));
+        let mut c2 = c.clone();
+        c2.n_vamms = 2;
+        let mut e = Exp::new("caps, two vAMMs", c2, alpha2, vec![vec![]], tier.pick(3, 4));
+        e.traders = T2.to_vec();
+        exps.push(e);
+    }
     crate::props::engprops::push_dec9(&mut exps, 1, false);
     run_exps(&mut run, step_c20_any, exps, |_| {});
     // (b) configuration bounds: at 6 decimals, and at 9 decimals with the same boundary values in raw units
